@@ -7,7 +7,7 @@ From RM Require Import Model.EncSpec Model.EncObjCarry Model.EncPathSpec Proofs.
      Proofs.Enc2Framing Proofs.Enc3Framing Proofs.Enc3Timing Proofs.Enc3Objects Proofs.Enc3Chrono Proofs.Enc3NodeInv.
 From RM Require Import Model.EncTimingSpec Proofs.ControlPointsFacts Proofs.EncTimingParse Proofs.EncTimingRT
      Proofs.Enc2Timing Proofs.Enc2SvRT.
-From RM Require Import Model.DrvEnc.
+From RM Require Import Model.DrvEnc Proofs.DecodedValues Proofs.EncGroups Proofs.EncTimingImage.
 From RM Require Model.Curve.
 From RM Require Import Gen.Generated.
 From Coq Require Import Sorting.Sorted.
@@ -27,6 +27,52 @@ Qed.
 Lemma ho_run_objects_nil mode ls st' rs raws :
   ho_run (ho_create mode) ls = Done (st', rs) -> ho_objects st' = ho_objects (ho_create mode) ++ raws -> ho_objects st' = raws.
 Proof. intros _ H. exact H. Qed.
+
+(* the velocity of a decoded slider is a closed form over SliderMultiplier, the mode, the timing
+   points and the slider-velocity timeline: two decoded maps (decoded with ANY two curve functions)
+   that agree on these give sliders with the same start time the same velocity *)
+Lemma decoded_velocity_eq2 dist1 dist2 lines1 lines2 m1 m2 h1 h2 s1 s2 :
+  decode_beatmap dist1 lines1 = Done m1 -> decode_beatmap dist2 lines2 = Done m2 ->
+  let ho1 := bmv_ho m1 in let ho2 := bmv_ho m2 in
+  d_slider_multiplier (hov_difficulty ho1) = d_slider_multiplier (hov_difficulty ho2) ->
+  g_mode (hov_general ho1) = g_mode (hov_general ho2) ->
+  cp_timing (hov_control_points ho1) = cp_timing (hov_control_points ho2) ->
+  (forall t, sv_at (hov_control_points ho1) t = sv_at (hov_control_points ho2) t) ->
+  In h1 (hov_hit_objects ho1) -> In h2 (hov_hit_objects ho2) ->
+  h_kind h1 = KSlider s1 -> h_kind h2 = KSlider s2 -> h_start h1 = h_start h2 ->
+  sl_velocity s1 = sl_velocity s2.
+Proof.
+  intros Hd1 Hd2 ho1 ho2 Hsm Hmode Htp Hsv Hin1 Hin2 Hk1 Hk2 Hst.
+  destruct (decoded_values dist1 lines1 m1 Hd1) as (_ & _ & _ & _ & V1).
+  destruct (decoded_values dist2 lines2 m2 Hd2) as (_ & _ & _ & _ & V2).
+  rewrite Forall_forall in V1, V2. specialize (V1 h1 Hin1). specialize (V2 h2 Hin2).
+  rewrite Hk1 in V1. rewrite Hk2 in V2. rewrite V1, V2, Hst.
+  apply velocity_closed_form_eq.
+  - exact (decoded_map_cp_sorted dist1 lines1 m1 Hd1).
+  - exact (decoded_map_cp_sorted dist2 lines2 m2 Hd2).
+  - exact Hsm.
+  - exact Hmode.
+  - exact Htp.
+  - apply Hsv.
+Qed.
+
+Lemma Forall2_impl' {A B} (R S : A -> B -> Prop) : (forall a b, R a b -> S a b) -> forall l1 l2, Forall2 R l1 l2 -> Forall2 S l1 l2.
+Proof. intros H l1 l2 F. induction F; constructor; auto. Qed.
+
+Lemma Forall2_with_in {A B} (R : A -> B -> Prop) : forall l1 l2, Forall2 R l1 l2 ->
+  Forall2 (fun a b => R a b /\ In a l1 /\ In b l2) l1 l2.
+Proof.
+  induction 1 as [|a b l1 l2 Hab H IH]; constructor.
+  - split; [exact Hab|split; left; reflexivity].
+  - eapply Forall2_impl'; [|exact IH]. intros x y (Hr & H1 & H2). split; [exact Hr|split; right; assumption].
+Qed.
+
+(* velocities of corresponding sliders *)
+Definition same_velocity (h o : HitObject) : Prop :=
+  match h_kind h, h_kind o with
+  | KSlider s, KSlider s' => sl_velocity s' = sl_velocity s
+  | _, _ => True
+  end.
 
 (* [final_rel] for the objects of a DECODED map: the two image premises of the slider clause are
    facts (Proofs/Enc3NodeInv.v), what remains is the class D31 -- a node with a file name *)
@@ -198,7 +244,34 @@ Section Map.
     exact (round_trip_decoded_map events lines m c ls dist2 m2 Hl Hd H23 Ec Hcls
              (conj Hobj (decoded_combo_chain dist lines m Hd Hch)) He Hd2).
   Qed.
+
+  (* ... and the velocities of the sliders: same SliderMultiplier (T02a), mode, timing points and
+     slider-velocity timeline (T02d), same start time (T02e) *)
+  Theorem round_trip_velocities events lines m c ls dist2 m2 :
+    Forall no_lf_line lines -> decode_beatmap dist lines = Done m -> d23_class m = false ->
+    enc_control_points dist events m = Done c ->
+    rt_classes (g_mode (hov_general (bmv_ho m))) c = true ->
+    objects_classes m ->
+    encode_lines dist events m = Done ls ->
+    decode_beatmap dist2 (map rline ls) = Done m2 ->
+    Forall2 same_velocity (hov_hit_objects (bmv_ho m)) (hov_hit_objects (bmv_ho m2)).
+  Proof.
+    intros Hl Hd H23 Ec Hcls Hobj He Hd2.
+    destruct (round_trip_decoded_map events lines m c ls dist2 m2 Hl Hd H23 Ec Hcls Hobj He Hd2)
+      as ((_ & Hg & _ & _ & Hdf & _) & (Ht & Hsv & _) & Hrel). cbv zeta in Ht, Hsv.
+    eapply Forall2_impl'; [|exact (Forall2_with_in _ _ _ Hrel)].
+    intros h o (Hr & Hin1 & Hin2). unfold same_velocity, final_rel_decoded in *.
+    destruct (h_kind h) as [ci|s|s|hd] eqn:Hk; try exact I.
+    destruct Hr as (cv & s' & _ & Hs & Hk' & _). rewrite Hk'.
+    symmetry. apply (decoded_velocity_eq2 dist dist2 lines (map rline ls) m m2 h o s s' Hd Hd2); try assumption.
+    - rewrite Hdf. reflexivity.
+    - rewrite Hg. reflexivity.
+    - symmetry. exact Ht.
+    - intros t0. symmetry. apply Hsv.
+    - symmetry. exact Hs.
+  Qed.
 End Map.
 
 Print Assumptions round_trip_decoded_map.
 Print Assumptions round_trip_chronological.
+Print Assumptions round_trip_velocities.
